@@ -13,7 +13,9 @@ Definition shifted_tail (b b' : N) (u u' : url) : Prop :=
 
 (* host text is non-empty whenever there is a host (true of every parsed URL; wf_b itself does not
    relate the host kind to the host text) *)
-Definition host_text_ok (u : url) : Prop := has_host u = true -> host_start u < host_end u.
+Definition host_text_ok (u : url) : Prop :=
+  has_host u = true ->
+  host_start u < host_end u /\ byte_eqb (ser u) (host_start u) 58 = false /\ byte_eqb (ser u) (host_start u) 64 = false.
 
 Section Suffix.
 Variables (u u' : url) (b b' : N).
@@ -142,3 +144,59 @@ Proof.
   - eapply sfx_query; eassumption.
   - eapply sfx_fragment; eassumption.
 Qed.
+
+(* ---------- the shared part starts at or before the host ---------- *)
+Definition shifted_auth (b b' : N) (u u' : url) : Prop :=
+  host_start u' = shift b b' (host_start u) /\ host_end u' = shift b b' (host_end u)
+  /\ hosti u' = hosti u /\ port u' = port u.
+
+Section AuthSuffix.
+Variables (u u' : url) (b b' : N).
+Hypothesis W : wf_b u = true.
+Hypothesis Ha : has_authority_b u = true.
+Hypothesis Hsuf : agree_suf b b' (ser u) (ser u').
+Hypothesis Hb : b <= host_start u.
+Hypothesis Hb' : b' <= nlen (ser u').
+Hypothesis Hsh : shifted_tail b b' u u'.
+Hypothesis Hsa : shifted_auth b b' u u'.
+
+Lemma asfx_bounds : host_start u <= host_end u /\ host_end u <= path_start u /\ path_start u <= nlen (ser u).
+Proof. pose proof (wf_auth_facts u W Ha) as F. pose proof (af_he F); pose proof (af_ps F); pose proof (af_len F). lia. Qed.
+
+Lemma asfx_port_ok : port_ok u'.
+Proof.
+  pose proof (af_port (wf_auth_facts u W Ha)) as P. destruct asfx_bounds as (B1 & B2 & B3).
+  destruct Hsh as (E1 & _). destruct Hsa as (S1 & S2 & S3 & S4).
+  unfold port_ok. rewrite S4, E1, S2. destruct (port u) as [p|].
+  - destruct P as (P1 & P2 & P3 & P4). split; [|split; [|split]].
+    + rewrite (suf_byte_eqb b b' _ _ (host_end u)) by (try exact Hsuf; try lia; reflexivity). exact P1.
+    + unfold shift. lia.
+    + exact P3.
+    + replace (shift b b' (host_end u) + 1) with (shift b b' (host_end u + 1)) by (unfold shift; lia).
+      rewrite (sfx_piece u u' b b' Hsuf) by lia. exact P4.
+  - unfold shift. lia.
+Qed.
+
+Lemma asfx_host_text_ok : host_text_ok u -> host_text_ok u'.
+Proof.
+  intros HT Hh. destruct Hsa as (S1 & S2 & S3 & S4). unfold has_host in Hh. rewrite S3 in Hh.
+  destruct (HT Hh) as (T1 & T2 & T3). rewrite S1, S2.
+  rewrite (suf_byte_eqb b b' _ _ (host_start u) _ 58) by (try exact Hsuf; try lia; reflexivity).
+  rewrite (suf_byte_eqb b b' _ _ (host_start u) _ 64) by (try exact Hsuf; try lia; reflexivity).
+  split; [unfold shift; lia | tauto].
+Qed.
+
+Hypothesis W' : wf_b u' = true.
+
+Lemma asfx_host_str : host_str u' = host_str u.
+Proof.
+  rewrite (host_str_eval u' W'), (host_str_eval u W). destruct Hsa as (S1 & S2 & S3 & S4).
+  unfold has_host. rewrite S3. destruct asfx_bounds as (B1 & B2 & B3).
+  destruct (hosti u); try reflexivity; unfold piece; cbn [pidx]; rewrite S1, S2;
+    rewrite (sfx_piece u u' b b' Hsuf) by lia; reflexivity.
+Qed.
+
+Lemma asfx_back dbg : same_back dbg u u'.
+Proof. destruct asfx_bounds as (B1 & B2 & B3). apply (sfx_back dbg u u' b b'); try assumption. lia. Qed.
+
+End AuthSuffix.
